@@ -90,6 +90,9 @@ mbserver.AppNamespace.open_mailbox = _open_mailbox
 mbserver.AppNamespace.claim_nameplate = _claim_nameplate
 
 
+JUNK_RESPONSES = ({"type": "nameplates"}, {"type": "claimed"}, {"type": "message", "side": "x"}, {"type": "allocated"})
+
+
 class _FakeFactory:
     def __init__(self, server):
         self._server = server
@@ -314,7 +317,7 @@ class MailboxWorld:
     explored={kinds}, coarse={client indexes whose up/down run eagerly},
     welcome={...}, reorder=int, dup=int, acks=bool, initial_fail=bool"""
 
-    KINDS = ("nconn_ok", "nconn_fail", "ndeliver", "nclose", "nlose", "ntimer", "down", "up", "api", "raw", "turn", "connect", "stopfin", "reorder", "dup", "srverr", "drop", "hsfail", "connfail")
+    KINDS = ("nconn_ok", "nconn_fail", "ndeliver", "nclose", "nlose", "ntimer", "down", "up", "api", "raw", "turn", "connect", "stopfin", "reorder", "dup", "srverr", "drop", "hsfail", "connfail", "junk")
 
     def __init__(self, cfg, seed=0):
         self.cfg = cfg
@@ -332,6 +335,7 @@ class MailboxWorld:
         self.dup_left = cfg.get("dup", 0)
         self.srverr_left = cfg.get("srverr", 0)
         self.hsfail_left = cfg.get("hsfail", 0)
+        self.junk_left = cfg.get("junk", 0)
         self.monitors = list(cfg.get("monitors", ()))
         self.final_monitors = list(cfg.get("final_monitors", ()))
         self._pending_services = []
@@ -490,6 +494,13 @@ class MailboxWorld:
                 for side in (0, 1):
                     if not link.ends[side].transport.closed and not link.broken:
                         evs.append(("nlose", link.idx, side))
+        if self.junk_left > 0:
+            # a server that is NOT conformant: one response of a known type with its fields missing, pushed to the front of
+            # the client's queue (only scenarios about robustness against such a server set cfg junk)
+            for c in self.clients:
+                if c.conn and c.conn.open and not c.conn.stopping:
+                    for j in range(len(JUNK_RESPONSES)):
+                        evs.append(("junk", c.ci, j))
         if self.ntimer_left > 0:
             # time passes for one client: its earliest pending timer (ping monitor, relay delay, ...) becomes due and fires
             for c in self.clients:
@@ -567,7 +578,7 @@ class MailboxWorld:
     def _closure(self):
         n = 0
         while True:
-            evs = [e for e in self._all_enabled() if self._is_eager(e) and e[0] not in ("drop", "dup", "reorder", "connfail", "srverr", "nlose", "hsfail", "ntimer")]
+            evs = [e for e in self._all_enabled() if self._is_eager(e) and e[0] not in ("drop", "dup", "reorder", "connfail", "srverr", "nlose", "hsfail", "ntimer", "junk")]
             if not evs:
                 break
             self._do(evs[0])
@@ -642,6 +653,9 @@ class MailboxWorld:
                 self._stopfin(c, process_uplink=False)
             else:
                 self._drop(c)
+        elif kind == "junk":
+            self.junk_left -= 1
+            self._deliver(c, dict(JUNK_RESPONSES[ev[2]]))
         elif kind == "srverr":
             self.srverr_left -= 1
             payload = c.conn.up.popleft()
@@ -758,7 +772,7 @@ class MailboxWorld:
         if record and msg.get("type") == "message":
             c.__dict__.setdefault("_delivered", []).append(msg)
         if msg.get("type") == "allocated":
-            c.ghost["told_np"].add(msg["nameplate"])
+            c.ghost["told_np"].add(msg.get("nameplate"))
         if msg.get("type") == "error" and isinstance(msg.get("orig"), dict) and msg["orig"].get("type") in ("close", "release"):
             c.ghost["close_rejected"] = msg["orig"].get("type") + ":" + str(msg.get("error"))
         if c.ghost["cause"] is None:
@@ -927,7 +941,7 @@ class MailboxWorld:
                               tuple((e.transport.closed, e.transport.disconnecting, e.owner) for e in link.ends)))
             netimg = (tuple(links), tuple((a.reactor.name, a.host, a.port, a.state) for a in self.net.attempts),
                       tuple(sorted((h, p, port.listening) for (h, p), port in self.net.listeners.items())), self.nlose_left, self.ntimer_left)
-        return (netimg, tuple(parts), tuple((a.pc, a.mailbox, a.errors) for a in self.raw), im.img(srv), self.reorder_left, self.dup_left, self.srverr_left, self.hsfail_left,
+        return (netimg, tuple(parts), tuple((a.pc, a.mailbox, a.errors) for a in self.raw), im.img(srv), self.reorder_left, self.dup_left, self.srverr_left, self.hsfail_left, self.junk_left,
                 tuple(self.errors), tuple(self.escaped), tuple(self.server_errors),
                 im.img(self.cfg.get("extra_state")(self)) if self.cfg.get("extra_state") else None)
 
